@@ -302,3 +302,28 @@ func m_strconv_ParseBool(str string) (bool, error) {
 	}
 	return false, vErrSyntax
 }
+
+// leaf routines that are assembly in the standard library
+func m_bytealg_IndexByteString(s string, c byte) int { return m_strings_IndexByte(s, c) }
+func m_bytealg_IndexByte(b []byte, c byte) int       { return m_strings_IndexByte(string(b), c) }
+func m_bytealg_IndexString(a, b string) int          { return m_strings_Index(a, b) }
+func m_bytealg_Index(a, b []byte) int                { return m_strings_Index(string(a), string(b)) }
+func m_bytealg_CountString(s string, c byte) int     { return m_strings_Count(s, string([]byte{c})) }
+func m_bytealg_Count(b []byte, c byte) int           { return m_strings_Count(string(b), string([]byte{c})) }
+func m_bytealg_Equal(a, b []byte) bool               { return string(a) == string(b) }
+func m_stringslite_Index(s, substr string) int       { return m_strings_Index(s, substr) }
+func m_stringslite_IndexByte(s string, c byte) int   { return m_strings_IndexByte(s, c) }
+func m_stringslite_Clone(s string) string            { return s }
+func m_strings_Clone(s string) string                { return s }
+func m_bytes_Clone(b []byte) []byte {
+	if b == nil {
+		return nil
+	}
+	return append([]byte{}, b...)
+}
+func m_bytes_Cut(s, sep []byte) (before, after []byte, found bool) {
+	if i := m_bytes_Index(s, sep); i >= 0 {
+		return s[:i], s[i+len(sep):], true
+	}
+	return s, nil, false
+}
